@@ -26,6 +26,9 @@ var hiddenOpts = []hiddenOpt{
 	{"bcc-iri", M{"bcc": Dave}, []string{Dave}},
 	{"bto-embedded", M{"bto": Emb("Person", Carol, "inbox", Carol+"/inbox")}, []string{Carol}},
 	{"bto+bcc-lists", M{"bto": L{Erin, Carol}, "bcc": L{Dave}}, []string{Erin, Carol, Dave}},
+	{"bcc-mention-by-href", M{"bcc": M{"type": "Mention", "href": Dave}}, []string{Dave}},
+	{"bto-link-with-id-and-decoy-href", M{"bto": M{"type": "Link", "id": Erin, "href": "https://r9.example/decoy"}}, []string{Erin}},
+	{"bto-empty-list+bcc-iri", M{"bto": L{}, "bcc": Erin}, []string{Erin}},
 }
 
 // findHidden lists JSON paths holding a bto/bcc member: at depth 0 and on elements of 'object'
